@@ -27,7 +27,7 @@ import vf
 
 ALL_CHOICES = ["SP", "TAB", "LF", "CRLF", "CR", "FF", "VT", "BLANK", "LC", "LCR", "LCE", "BC", "BCM", "BCE", "DOC", "BOM"]
 CORE_CHOICES = ["SP", "LF", "CRLF", "FF", "BLANK", "LC", "BC", "DOC"]
-LINKABLE = ["p2", "p3", "ed", "s2", "s3"]          # featgen skeletons (x is parse-only)
+LINKABLE = ["p2", "p3", "ed", "s2", "s3", "t1"]    # featgen skeletons + the hand-written t1 (x, e24 are parse-only)
 
 LAYOUT_CFG = """SPECIFICATION Spec
 CONSTANTS
@@ -116,7 +116,7 @@ def layout_plan(tier, rng, linkable_only=False):
     if tier == "quick":
         plan = [
             ("full",    dict(skels=["s3"], mode="bfs", maxgaps=1, maxper=1, allowed="first", choices=ALL_CHOICES, full=True), 1, None, None),
-            ("single",  dict(skels=["x", "s3", "e24"], mode="bfs", maxgaps=1, maxper=1, allowed="all", choices=ALL_CHOICES), 2, None, None),
+            ("single",  dict(skels=["x", "s3", "e24", "t1"], mode="bfs", maxgaps=1, maxper=1, allowed="all", choices=ALL_CHOICES), 2, None, None),
             ("samegap", dict(skels=["x"], mode="bfs", maxgaps=1, maxper=2, allowed="first", choices=ALL_CHOICES), 1, None, None),
             ("twogaps", dict(skels=["s2"], mode="bfs", maxgaps=2, maxper=1, allowed="first", choices=six), 1, None, None),
             ("sim",     dict(skels=["p3", "x", "s2", "e24"], mode="sim", maxgaps=0, maxper=2, allowed="all", choices=ALL_CHOICES, density=25), 1, 150, 600),
@@ -125,7 +125,7 @@ def layout_plan(tier, rng, linkable_only=False):
         plan = [
             ("full",    dict(skels=["s3"], mode="bfs", maxgaps=1, maxper=1, allowed="all", choices=ALL_CHOICES, full=True), 2, None, None),
             ("fullx",   dict(skels=["x", "s2"], mode="bfs", maxgaps=1, maxper=2, allowed="first", choices=CORE_CHOICES + ["BCM", "LCE", "BOM", "VT"], full=True), 2, None, None),
-            ("single",  dict(skels=["x", "e24", "p2", "p3", "ed", "s2", "s3"], mode="bfs", maxgaps=1, maxper=1, allowed="all", choices=ALL_CHOICES), 3, None, None),
+            ("single",  dict(skels=["x", "e24", "t1", "p2", "p3", "ed", "s2", "s3"], mode="bfs", maxgaps=1, maxper=1, allowed="all", choices=ALL_CHOICES), 3, None, None),
             ("samegap", dict(skels=["x", "e24", "p2", "ed"], mode="bfs", maxgaps=1, maxper=2, allowed="reps", choices=ALL_CHOICES), 3, None, None),
             ("triple",  dict(skels=["x", "e24", "ed"], mode="bfs", maxgaps=1, maxper=3, allowed="first", choices=CORE_CHOICES + ["LCE", "BOM"]), 2, None, None),
             ("twogaps", dict(skels=["x", "e24", "ed"], mode="bfs", maxgaps=2, maxper=1, allowed="first", choices=ALL_CHOICES), 3, None, None),
@@ -139,6 +139,8 @@ def layout_plan(tier, rng, linkable_only=False):
                 ("sim",     dict(skels=["s2"], mode="sim", maxgaps=0, maxper=2, allowed="all", choices=ALL_CHOICES, density=25), 1, 30, 600),
                 # runs of consecutive line comments in a CRLF context (every case is used, not sampled)
                 ("crlf",    dict(skels=["s3"], mode="bfs", maxgaps=1, maxper=3, allowed="first", choices=["LCR"]), 1, None, None),
+                # a file whose last declaration ends in `;`: comments as the very last bytes (every case is used)
+                ("eof",     dict(skels=["t1"], mode="bfs", maxgaps=1, maxper=2, allowed="first", choices=["LCE", "SP", "BC"]), 1, None, None),
             ]
         else:
             plan = [
@@ -148,6 +150,7 @@ def layout_plan(tier, rng, linkable_only=False):
                 ("sim",     dict(skels=["p2", "p3", "ed"], mode="sim", maxgaps=0, maxper=2, allowed="all", choices=ALL_CHOICES, density=20), 1, 400, 600),
                 ("simdense", dict(skels=["ed", "s2"], mode="sim", maxgaps=0, maxper=2, allowed="all", choices=ALL_CHOICES, density=70), 1, 60, 600),
                 ("crlf",    dict(skels=["s2", "s3"], mode="bfs", maxgaps=1, maxper=3, allowed="first", choices=["LCR", "LC"]), 2, None, None),
+                ("eof",     dict(skels=["t1"], mode="bfs", maxgaps=2, maxper=2, allowed="first", choices=["LCE", "LC", "LCR", "SP", "BC", "DOC"]), 2, None, None),
             ]
     return plan
 
@@ -531,8 +534,8 @@ def run_c23(pid, tier, replay):
         nschema = _check_schema(binary, schema[0])
         for (name, *_), (cf, _seen, _r, _s) in zip(ff_runs, ff_res):
             casefiles["ff" + name] = cf
-        nlay = _sample_layouts([lay[n][0] for n in lay if n != "crlf"], 40 if tier == "quick" else 800, rng,
-                               os.path.join(wd, "layouts_c23.jsonl"), keep_all=[lay["crlf"][0]])
+        nlay = _sample_layouts([lay[n][0] for n in lay if n not in ("crlf", "eof")], 40 if tier == "quick" else 800, rng,
+                               os.path.join(wd, "layouts_c23.jsonl"), keep_all=[lay["crlf"][0], lay["eof"][0]])
         casefiles["lay"] = os.path.join(wd, "layouts_c23.jsonl")
         gen_info = {"ff": {n[0]: len(r[1]) for n, r in zip(ff_runs, ff_res)}, "layouts_sampled": nlay,
                     "layouts_generated": {n: lay[n][1] for n in lay}, "line_tables_checked": nlines, "schema_fields_checked": nschema}
@@ -686,6 +689,8 @@ SKEL_HEADER = '''------------------------------ MODULE LayoutSkel --------------
      e24          hand-written edition 2024 file: import option, export / local declarations, and type
                   names whose first component is a keyword (export.a.B, local.x.Y, stream.returns.rpc, ...);
                   parse-only
+     t1           hand-written small file that links and ENDS in a `;`-terminated declaration (file option),
+                  so that trivia at the very end of the file can be a location's trailing comment (C23)
      p2, p3, ed   harness/_common/featgen main.proto for the maximal valid feature set of each syntax
                   (without the comments / weird_layout features: Layout supplies the trivia)
      s3, s2       two small featgen files (quick tier)
@@ -703,7 +708,7 @@ def regen_skeletons():
         return {"p3opt": s == "proto3", "group": s != "proto3", "extrange": s != "proto3", "extend": s != "proto3",
                 "required": s != "proto3", "default": s != "proto3", "features": s == "editions",
                 "jsoncollide": s == "proto2", "mapfeatures": s == "editions", "extgroup": s == "proto2"}.get(f, True)
-    reqs = [{"id": "x"}, {"id": "e24"}]
+    reqs = [{"id": "x"}, {"id": "e24"}, {"id": "t1", "syntax": "proto3", "features": []}]
     for sid, syn in (("p2", "proto2"), ("p3", "proto3"), ("ed", "editions")):
         reqs.append({"id": sid, "syntax": syn, "features": [f for f in SKEL_FEATURES if ok(syn, f)]})
     reqs.append({"id": "s3", "syntax": "proto3", "features": ["pkg", "enum", "stdopt", "oneof", "service"]})
